@@ -118,7 +118,14 @@ class Prop(object):
         except Exception as e:
             return 'error', type(e).__name__
         if d is e:
-            return 'no-plaintext', 'decrypt declined (warning) and handed the input object back'
+            # decrypt declined (warning) and handed the input object back.  That object holds no plaintext - unless what was read is itself an
+            # unencrypted literal message (someone's packet in front of the ciphertext): then the caller of decrypt() is holding that text
+            try:
+                unencrypted_text = (not e.is_encrypted) and e.type == 'literal'
+            except Exception:
+                unencrypted_text = False
+            if not unencrypted_text:
+                return 'no-plaintext', 'decrypt declined (warning) and handed the input object back'
         try:
             kind = d.type
         except NotImplementedError:
@@ -384,6 +391,17 @@ class Prop(object):
                     seen.add(combo)
                     mb = b''.join(raws[i] for i in combo)
                     self._judge(r, mb, rc, m, dict(tags, grp='packets'), dict(case), 'top-level packets rearranged as %r (of %d)' % (combo, len(raws)))
+            # packets the message never had, put in front of, between and behind its own (no key is needed to do that): an unencrypted literal packet,
+            # a compressed packet holding one, a marker packet, a second copy of the encrypted data - whatever comes back, it is not someone else's text
+            from refpgp import msg as rmsg
+            evil = wire.packet(11, rmsg.literal_body('b', b'', 0, b'Pay 10000 EUR to Mallory.'))
+            extras = {'literal': evil, 'compressed-literal': wire.packet(8, rmsg.compress(1, evil)), 'marker': wire.packet(10, b'PGP'),
+                      'second-data-packet': raws[-1], 'literal-old-format': wire.packet(11, rmsg.literal_body('t', b'x.txt', 1, b'injected text\n'), 'old')}
+            for xname, xp in extras.items():
+                for pos in range(len(raws) + 1):
+                    mb = b''.join(raws[:pos]) + xp + b''.join(raws[pos:])
+                    self._judge(r, mb, rc, m, dict(tags, grp='injected-packet', injected=xname.split('-')[0]), dict(case),
+                                'a %s packet inserted at position %d of the %d top-level packets' % (xname, pos, len(raws)))
             # data packet of the other message behind this message's session-key packets
             self._judge(r, b''.join(raws[:-1]) + self._split(blobB)[-1]['raw'], rc, m, dict(tags, grp='foreign-data'), dict(case),
                         "another message's data packet behind this message's session-key packets", alts=(mB,))
